@@ -199,10 +199,18 @@ where
             return Ok(None);
         };
 
-        Ok(Some((
-            row.total_operation_count,
-            row.total_header_bytes + row.total_payload_bytes,
-        )))
+        // Headers declare their payload size, the total can exceed what the return type holds.
+        // Fail like the row decoding does when a single sum is out of range.
+        let total_bytes = row
+            .total_header_bytes
+            .checked_add(row.total_payload_bytes)
+            .ok_or_else(|| {
+                SqliteError::Sqlite(sqlx::Error::Decode(
+                    "total byte size of log entries is out of range for u32".into(),
+                ))
+            })?;
+
+        Ok(Some((row.total_operation_count, total_bytes)))
     }
 
     /// Retrieve log entries representing operations from an author's log.
